@@ -49,7 +49,16 @@ class RngSeam:
             raise ValueError("low >= high")
         if n == 1:
             return int(low)
-        return int(low) + self.src.choose("randint", n)
+        # the menu is rotated by the number of earlier randint choice points of this execution, so that
+        # the default answer (entry 0) does not always pick the same split dimension / descent direction;
+        # every value stays reachable (entry a -> value (a + k) mod n)
+        src = self.src
+        k = getattr(src, "_nrand", 0)
+        try:
+            src._nrand = k + 1
+        except AttributeError:
+            pass
+        return int(low) + (self.src.choose("randint", n) + k) % n
 
     def uniform(self, low=0.0, high=1.0, size=None):
         if size is not None:
